@@ -33,59 +33,82 @@ Proof.
   - rewrite !andb_true_iff, orb_true_iff. tauto.
 Qed.
 
+(* the status switch once the response is authentic and current *)
+Definition classify (r : oresp) : sclass :=
+  match o_inv r, o_status r with
+  | InvDate t, SRevoked => if negb (st =? 0) && (st <? t) then COk else CRevoked
+  | _, SGood => COk
+  | _, SRevoked => CRevoked
+  | _, SUnknownStatus => CUnknownStatus
+  end.
+
+Lemma excused_iff t : negb (st =? 0) && (st <? t) = true <-> st <> 0 /\ st < t.
+Proof. rewrite andb_true_iff, negb_true_iff, Z.eqb_neq, Z.ltb_lt. tauto. Qed.
+
+Lemma classify_ok r : classify r = COk <-> SaysGood st r.
+Proof.
+  unfold classify, SaysGood.
+  destruct (o_inv r) as [| |t] eqn:I; destruct (o_status r) eqn:S.
+  all: try (split; [intros _; left; reflexivity | reflexivity]).
+  all: try (split; [discriminate | intros [G|[G1 [G2 [t0 [G3 G4]]]]]; congruence]).
+  destruct (negb (st =? 0) && (st <? t)) eqn:C.
+  - apply excused_iff in C. split; [intros _|reflexivity]. right. split; [reflexivity|]. split; [tauto|]. exists t. split; [reflexivity|tauto].
+  - split; [discriminate|]. intros [G|[G1 [G2 [t0 [G3 G4]]]]]; [discriminate|]. inversion G3; subst t0.
+    assert (H : negb (st =? 0) && (st <? t) = true) by (apply excused_iff; tauto). congruence.
+Qed.
+
+Lemma classify_revoked r : classify r = CRevoked <-> SaysRevoked st r.
+Proof.
+  unfold classify, SaysRevoked.
+  destruct (o_inv r) as [| |t] eqn:I; destruct (o_status r) eqn:S.
+  all: try (split; [discriminate | intros [G _]; discriminate]).
+  all: try (split; [intros _; split; [reflexivity|]; intros [_ [t0 [G _]]]; discriminate | reflexivity]).
+  destruct (negb (st =? 0) && (st <? t)) eqn:C.
+  - apply excused_iff in C. split; [discriminate|]. intros [_ G]. exfalso. apply G. split; [tauto|]. exists t. split; [reflexivity|tauto].
+  - split; [intros _|reflexivity]. split; [reflexivity|]. intros [G2 [t0 [G3 G4]]]. inversion G3; subst t0.
+    assert (H : negb (st =? 0) && (st <? t) = true) by (apply excused_iff; tauto). congruence.
+Qed.
+
+Lemma current_iff r : negb (o_next r <? now) = true <-> Current now r.
+Proof. unfold Current. rewrite negb_true_iff, Z.ltb_ge. lia. Qed.
+
+Lemma server_check_resp u r : outcome u = UResp r ->
+  server_check outcome now st u =
+  if lib_accepts r && authorised r && negb (o_next r <? now) then classify r else CError.
+Proof.
+  intros O. unfold server_check, classify. rewrite O.
+  destruct (lib_accepts r); cbn [negb andb]; [|reflexivity].
+  destruct (authorised r); cbn [negb andb]; [|reflexivity].
+  destruct (o_next r <? now); cbn [negb]; reflexivity.
+Qed.
+
+Lemma server_check_class u (k : sclass) : k <> CError ->
+  (server_check outcome now st u = k <->
+   exists r, outcome u = UResp r /\ Authentic r /\ Current now r /\ classify r = k).
+Proof.
+  intros Hk. destruct (outcome u) as [| |r] eqn:O.
+  - unfold server_check. rewrite O. split; [congruence|intros [r [H _]]; discriminate].
+  - unfold server_check. rewrite O. split; [congruence|intros [r [H _]]; discriminate].
+  - rewrite (server_check_resp u r O).
+    destruct (lib_accepts r && authorised r) eqn:A; cbn [andb].
+    + apply authentic_iff in A. destruct (negb (o_next r <? now)) eqn:N.
+      * apply current_iff in N. split; [intros H; exists r; auto|]. intros [r0 [E [_ [_ H]]]]. inversion E; subst r0; exact H.
+      * split; [congruence|]. intros [r0 [E [_ [C _]]]]. inversion E; subst r0. apply current_iff in C. congruence.
+    + split; [congruence|]. intros [r0 [E [A' _]]]. inversion E; subst r0. apply authentic_iff in A'. congruence.
+Qed.
+
 Lemma server_check_ok u :
   server_check outcome now st u = COk <->
   exists r, outcome u = UResp r /\ Authentic r /\ Current now r /\ SaysGood st r.
 Proof.
-  unfold server_check. destruct (outcome u) as [| |r] eqn:O.
-  - split; [discriminate|intros [r [H _]]; discriminate].
-  - split; [discriminate|intros [r [H _]]; discriminate].
-  - pose proof (authentic_iff r) as HA. unfold Current, SaysGood.
-    destruct (lib_accepts r); cbn [negb andb] in *.
-    2:{ split; [discriminate|]. intros [r0 [E [A _]]]. inversion E; subst. apply HA in A. discriminate. }
-    destruct (authorised r); cbn [negb] in *.
-    2:{ split; [discriminate|]. intros [r0 [E [A _]]]. inversion E; subst. apply HA in A. discriminate. }
-    destruct (o_next r <? now) eqn:N.
-    + apply Z.ltb_lt in N. split; [discriminate|]. intros [r0 [E [_ [[_ C] _]]]]. inversion E; subst. lia.
-    + apply Z.ltb_ge in N. assert (Hc : o_next r <> 0 /\ now <= o_next r) by lia.
-      destruct (o_inv r) as [| |t] eqn:I; destruct (o_status r) eqn:S; cbn [negb andb];
-      try (split; [intros _; exists r; repeat split; try tauto; try lia; left; reflexivity
-                  |reflexivity]);
-      try (split; [discriminate|intros [r0 [E [_ [_ [G|[G1 [G2 [t0 [G3 G4]]]]]]]]]; inversion E; subst; congruence]).
-      destruct (negb (st =? 0) && (st <? t)) eqn:C.
-      * apply andb_true_iff in C. destruct C as [C1 C2]. apply negb_true_iff, Z.eqb_neq in C1. apply Z.ltb_lt in C2.
-        split; [intros _|reflexivity]. exists r. repeat split; try tauto; try lia. right. repeat split; auto. exists t. split; [reflexivity|exact C2].
-      * split; [discriminate|]. intros [r0 [E [_ [_ [G|[G1 [G2 [t0 [G3 G4]]]]]]]]]; inversion E; subst; [congruence|].
-        rewrite I in G3. inversion G3; subst. apply andb_false_iff in C. destruct C as [C|C].
-        -- apply negb_false_iff, Z.eqb_eq in C. contradiction.
-        -- apply Z.ltb_ge in C. lia.
+  rewrite server_check_class by discriminate. split; intros [r [O [A [C G]]]]; exists r; (split; [exact O|split; [exact A|split; [exact C|apply classify_ok; exact G]]]).
 Qed.
 
 Lemma server_check_revoked u :
   server_check outcome now st u = CRevoked <->
   exists r, outcome u = UResp r /\ Authentic r /\ Current now r /\ SaysRevoked st r.
 Proof.
-  unfold server_check. destruct (outcome u) as [| |r] eqn:O.
-  - split; [discriminate|intros [r [H _]]; discriminate].
-  - split; [discriminate|intros [r [H _]]; discriminate].
-  - pose proof (authentic_iff r) as HA. unfold Current, SaysRevoked.
-    destruct (lib_accepts r); cbn [negb andb] in *.
-    2:{ split; [discriminate|]. intros [r0 [E [A _]]]. inversion E; subst. apply HA in A. discriminate. }
-    destruct (authorised r); cbn [negb] in *.
-    2:{ split; [discriminate|]. intros [r0 [E [A _]]]. inversion E; subst. apply HA in A. discriminate. }
-    destruct (o_next r <? now) eqn:N.
-    + apply Z.ltb_lt in N. split; [discriminate|]. intros [r0 [E [_ [[_ C] _]]]]. inversion E; subst. lia.
-    + apply Z.ltb_ge in N. assert (Hc : o_next r <> 0 /\ now <= o_next r) by lia.
-      destruct (o_inv r) as [| |t] eqn:I; destruct (o_status r) eqn:S; cbn [negb andb];
-      try (split; [discriminate|intros [r0 [E [_ [_ [G _]]]]]; inversion E; subst; congruence]);
-      try (split; [intros _; exists r; repeat split; try tauto; try lia; intros [_ [t0 [G _]]]; discriminate|reflexivity]).
-      destruct (negb (st =? 0) && (st <? t)) eqn:C.
-      * apply andb_true_iff in C. destruct C as [C1 C2]. apply negb_true_iff, Z.eqb_neq in C1. apply Z.ltb_lt in C2.
-        split; [discriminate|]. intros [r0 [E [_ [_ [_ G]]]]]. inversion E; subst. exfalso. apply G. split; [exact C1|]. exists t. split; [exact I|exact C2].
-      * split; [intros _|reflexivity]. exists r. repeat split; try tauto; try lia.
-        intros [G2 [t0 [G3 G4]]]. rewrite I in G3. inversion G3; subst. apply andb_false_iff in C. destruct C as [C|C].
-        -- apply negb_false_iff, Z.eqb_eq in C. contradiction.
-        -- apply Z.ltb_ge in C. lia.
+  rewrite server_check_class by discriminate. split; intros [r [O [A [C G]]]]; exists r; (split; [exact O|split; [exact A|split; [exact C|apply classify_revoked; exact G]]]).
 Qed.
 
 (* ---- the responder loop: the first decisive URL decides ---- *)
@@ -125,34 +148,63 @@ Qed.
 
 (* the contact log: every URL up to and including the first decisive one, except those whose
    URL string is unusable (no request is made for them) *)
+Fixpoint upto (l : list Z) : list Z :=
+  match l with [] => [] | x :: r => if dec x then [x] else x :: upto r end.
+
 Lemma ocsp_loop_log : forall urls acc log,
-  snd (ocsp_loop outcome now st urls acc log) =
-  rev log ++ filter (contacts outcome)
-    (match find dec urls with
-     | Some _ => (fix upto (l : list Z) := match l with [] => [] | x :: r => if dec x then [x] else x :: upto r end) urls
-     | None => urls end).
+  snd (ocsp_loop outcome now st urls acc log) = rev log ++ filter (contacts outcome) (upto urls).
 Proof.
-  induction urls as [|u r IH]; intros acc log; cbn [ocsp_loop find].
+  induction urls as [|u r IH]; intros acc log; cbn [ocsp_loop upto].
   - cbn. rewrite app_nil_r. reflexivity.
-  - unfold dec at 1 3. destruct (decisive (server_check outcome now st u)) eqn:D.
-    + cbn [snd filter]. destruct (contacts outcome u); cbn [rev]; [rewrite <- app_assoc|rewrite app_nil_r]; reflexivity.
-    + rewrite IH. fold dec. destruct (find dec r); cbn [filter]; destruct (contacts outcome u); cbn [rev]; rewrite <- ?app_assoc; reflexivity.
+  - unfold dec at 1. destruct (decisive (server_check outcome now st u)) eqn:D.
+    + cbn [snd filter]. destruct (contacts outcome u); cbn [rev app]; rewrite ?app_nil_r; reflexivity.
+    + rewrite IH. cbn [filter]. destruct (contacts outcome u); cbn [rev]; rewrite <- ?app_assoc; reflexivity.
 Qed.
 
+Theorem ocsp_check_log urls :
+  snd (ocsp_check outcome now st urls) = filter (contacts outcome) (upto urls).
+Proof. destruct urls as [|u r]; [reflexivity|]. unfold ocsp_check. rewrite ocsp_loop_log. reflexivity. Qed.
+
 (* ---- C04: soundness of OK, Revoked, never-OK ---- *)
+Lemma find_split {A} (f : A -> bool) : forall l u, find f l = Some u ->
+  exists l1 l2, l = l1 ++ u :: l2 /\ f u = true /\ forall v, In v l1 -> f v = false.
+Proof.
+  induction l as [|x r IH]; intros u H; [discriminate|]. cbn [find] in H. destruct (f x) eqn:Fx.
+  - inversion H; subst x. exists [], r. split; [reflexivity|]. split; [exact Fx|]. intros v [].
+  - destruct (IH u H) as [l1 [l2 [E [Fu Hl]]]]. exists (x :: l1), l2. split; [rewrite E; reflexivity|]. split; [exact Fu|].
+    intros v [<-|Hv]; [exact Fx|exact (Hl v Hv)].
+Qed.
+
+(* OK only on an authentic, current Good answer; the responders before it were all non-decisive
+   (errors), and it is the first decisive one *)
 Theorem ok_sound urls :
   cr_result (fst (ocsp_check outcome now st urls)) = ROK ->
-  exists u r, In u urls /\ outcome u = UResp r /\ Authentic r /\ Current now r /\ SaysGood st r /\
-    (forall v, In v urls -> dec v = true -> v = u \/ True) /\
-    find dec urls = Some u.
+  exists u r l1 l2, urls = l1 ++ u :: l2 /\ outcome u = UResp r /\ Authentic r /\ Current now r /\ SaysGood st r /\
+    (forall v, In v l1 -> server_check outcome now st v = CError).
 Proof.
   intros H. destruct urls as [|u0 r0] eqn:E; [discriminate|]. rewrite <- E in *.
   rewrite ocsp_check_exact in H by (rewrite E; discriminate).
   destruct (find dec urls) as [u|] eqn:F; [|discriminate].
-  cbn in H. apply find_some in F as F'. destruct F' as [Hin Hd].
+  cbn in H. destruct (find_split dec urls u F) as [l1 [l2 [Hs [Hd Hl]]]].
   destruct (server_check outcome now st u) eqn:S; try discriminate.
   apply server_check_ok in S. destruct S as [r [O [A [C G]]]].
-  exists u, r. repeat split; auto.
+  exists u, r, l1, l2. split; [exact Hs|]. split; [exact O|]. split; [exact A|]. split; [exact C|]. split; [exact G|].
+  intros v Hv. specialize (Hl v Hv). unfold dec in Hl. destruct (server_check outcome now st v); try discriminate. reflexivity.
+Qed.
+
+Theorem revoked_sound urls :
+  cr_result (fst (ocsp_check outcome now st urls)) = RRevoked ->
+  exists u r l1 l2, urls = l1 ++ u :: l2 /\ outcome u = UResp r /\ Authentic r /\ Current now r /\ SaysRevoked st r /\
+    (forall v, In v l1 -> server_check outcome now st v = CError).
+Proof.
+  intros H. destruct urls as [|u0 r0] eqn:E; [discriminate|]. rewrite <- E in *.
+  rewrite ocsp_check_exact in H by (rewrite E; discriminate).
+  destruct (find dec urls) as [u|] eqn:F; [|discriminate].
+  cbn in H. destruct (find_split dec urls u F) as [l1 [l2 [Hs [Hd Hl]]]].
+  destruct (server_check outcome now st u) eqn:S; try discriminate.
+  apply server_check_revoked in S. destruct S as [r [O [A [C G]]]].
+  exists u, r, l1, l2. split; [exact Hs|]. split; [exact O|]. split; [exact A|]. split; [exact C|]. split; [exact G|].
+  intros v Hv. specialize (Hl v Hv). unfold dec in Hl. destruct (server_check outcome now st v); try discriminate. reflexivity.
 Qed.
 
 Theorem ok_iff urls : urls <> [] ->
